@@ -66,6 +66,124 @@ prop('C14',
      trust=['ES5 identifier ranges: pinned copy /verif/ref/es5_ranges.txt'])
 
 
+
+# ---- tree projections (parser properties)
+
+def _sexp(s):
+    """parse the canonical tree text into nested lists"""
+    toks = s.replace('(', ' ( ').replace(')', ' ) ').replace('[', ' [ ').replace(']', ' ] ').split()
+    pos = 0
+
+    def rd():
+        nonlocal pos
+        t = toks[pos]
+        pos += 1
+        if t == '(' or t == '[':
+            close = ')' if t == '(' else ']'
+            out = ['L' if t == '[' else 'N']
+            while toks[pos] != close:
+                out.append(rd())
+            pos += 1
+            return out
+        return t
+    return rd()
+
+
+def _strip(n):
+    """position-free rendering of a tree node"""
+    if isinstance(n, str):
+        return n
+    if n[0] == 'L':
+        return '[' + ' '.join(_strip(x) for x in n[1:]) + ']'
+    k = n[1]
+    a = n[2:]
+    if k == 'I':
+        return '(I %s %s)' % (a[0], a[1])
+    if k == 'L':
+        return '(L %s %s)' % (a[0], a[1])
+    if k == 'P':
+        return '(P %s %s)' % (a[0], _strip(a[3]))
+    if k == 'T':
+        return '(T %s)' % _strip(a[0])
+    if k == 'B':
+        return '(B %s %s %s)' % (_strip(a[0]), a[1], _strip(a[4]))
+    if k == 'C':
+        return '(C %s %s %s %s)' % (_strip(a[0]), _strip(a[3]), a[4], _strip(a[7]))
+    if k == 'A':
+        return '(A %s)' % _strip(a[0])
+    if k == 'G':
+        return '(G %s)' % _strip(a[0])
+    if k == 'S':
+        return '(S %s %s %s)' % (_strip(a[0]), _strip(a[1]), a[2])
+    if k == 'F':
+        return '(F %s %s %s)' % (_strip(a[0]), _strip(a[1]), '-' if a[4] == '-' else 'spread')
+    return '(?)'
+
+
+def proj_parse_class(obs):
+    """accepted / rejected only"""
+    return obs[:1] if obs[:1] in 'AR' else obs.split('|')[0]
+
+
+def proj_parse_tree(obs):
+    """C02: accepted with the position-free tree, or rejected"""
+    if obs.startswith('A '):
+        try:
+            return 'A ' + _strip(_sexp(obs[2:]))
+        except Exception:
+            return obs
+    return proj_parse_class(obs)
+
+
+def proj_parse_positions(obs):
+    """C15: the full tree with source ranges for accepted input; first diagnostic's line, column and
+    code plus all diagnostics (start, length, code) for rejected input (the recovery tree is dropped)"""
+    if obs.startswith('R '):
+        return '|'.join(obs.split('|')[:2])
+    return obs
+
+
+prop('C01',
+     obligations=['Props/C01.vo', 'Tie/TablesTie.vo'],
+     suites=[dict(name='parse', project=proj_parse_class, definitive=False,
+                  what='accept/reject differs from the parser model that is proved total'),
+             dict(name='parsebig', project=ident, definitive=False,
+                  what='accept/reject differs from the parser model on a mutated input')],
+     rule='all sequences of up to 3 lexemes over a 46-lexeme alphabet, random token sequences with varied '
+          'separators, 30 pathological shapes at 8 KiB and 64 KiB, mutated 0.1-8 KiB byte strings; oracles on the '
+          'implementation: no panic, no hang (20 s watchdog), 64 KiB under 5 s and at most 40x the 8 KiB time, '
+          'error xor tree, accepted trees complete and consuming the whole input; distinct = distinct text, '
+          'non-trivial = at least 2 lexemes',
+     trust=['wall-clock time and Go stack growth are runtime behaviour outside the model: covered by the timing oracle only'])
+
+prop('C02',
+     obligations=['Props/C02.vo', 'Tie/TablesTie.vo'],
+     suites=[dict(name='grammar', project=proj_parse_tree, definitive=True,
+                  what='the tree (or the rejection) differs from the unique derivation the grammar determines')],
+     rule='every sequence of up to 3 token-class representatives (23 classes) with space or newline at each gap and '
+          'every sequence of 4 with spaces; all pairs and triples of the 22 infix operators; prefix^i binary postfix^j; '
+          'random grammar-directed programs with minimal parentheses and random trivia; distinct = distinct text, '
+          'non-trivial = at least 2 tokens')
+
+PROPS['C14']['suites'].append(dict(name='spacing', project=proj_parse_tree, definitive=True,
+                                   what='parse of a re-spaced text differs from the proved model'))
+
+prop('C15',
+     obligations=['Props/C15.vo', 'Tie/TablesTie.vo'],
+     suites=[dict(name='linemap', project=ident, definitive=True,
+                  what='offset-to-(line, column) differs from the proved direct count'),
+             dict(name='errpos', project=ident, definitive=True,
+                  what='the (line, column) of the syntax error is not the direct count of the first diagnostic offset'),
+             dict(name='ranges', project=proj_parse_positions, definitive=False,
+                  what='node ranges / diagnostics differ from the parser model whose ranges are proved to nest'),
+             dict(name='parse', project=proj_parse_positions, definitive=False,
+                  what='node ranges / diagnostics differ from the parser model')],
+     rule='texts over {a,LF,CR,U+2028,U+2029,U+0085,2-byte char,stray bytes} up to 4 symbols x every offset; '
+          'rejected inputs built from 28 pieces incl. all six line-break forms (error position judged by the proved '
+          'direct count); accepted grammar-directed formulas with random trivia (nesting and re-parse of every node '
+          'checked on the implementation); distinct = distinct (text, offset) or text; non-trivial = contains a line '
+          'break before the offset / at least 3 tokens')
+
 # ------------------------------------------------------------------ decision procedure
 
 def theorem_names(V, pid):
@@ -136,9 +254,9 @@ def check(V, pid, tier, seed):
             return 2
         evaluations += len(r['cases'])
         nontrivial += r['stats'].get('distinct_nontrivial', 0)
-        samples += r['stats'].get('samples', [])[:6]
+        samples += (r['stats'].get('samples') or [])[:6]
         stats[s['name']] = r['stats'].get('stats', {})
-        notes += r['stats'].get('notes', [])
+        notes += (r['stats'].get('notes') or [])
         proj = s.get('project', ident)
         for i, (c, a, m) in enumerate(zip(r['cases'], r['impl'], r['model'])):
             if a == m:
